@@ -49,6 +49,10 @@ NODES += [("gateway.abcxyz.use1.cache.amazonaws.com", "10.0.9.9", 11311 + i) for
 # node 11 shares only its IP with node 0 (another port), node 12 only its host name with node 1
 NODES += [("alias-of-0.abcxyz.use1.cache.amazonaws.com", NODES[0][1], 11999), (NODES[1][0], "10.0.7.77", 11998)]
 HUGE = 1 << 30
+# servers of its own the application may put into rotation through the inherited add_server, in the spellings a server can have;
+# the next reconfigure_nodes() makes the rotation the advertised list again
+APP_SERVERS = [("10.9.9.9", 11211), "10.9.9.9:11211", "10.9.9.9", "[fd00::9]:11211", "unix:/tmp/app.sock", "/tmp/app.sock", ("App-Host", "11211"), "App-Host:11211"]
+APP_ADDRS = [("10.9.9.9", 11211), ("fd00::9", 11211), "/tmp/app.sock", ("App-Host", 11211)]
 
 
 def cluster_body(version, idxs):
@@ -69,6 +73,9 @@ class World:
             self.net.add_server((host, port), s)
             self.net.add_server((ip, port), s)
             self.nodes.append(s)
+        self.app = McServer(self.clock, name="app-server")
+        for a in APP_ADDRS:
+            self.net.add_server(a, self.app)
 
     def advertise(self, version, idxs):
         self.cfg.cluster_config = cluster_body(version, idxs)
@@ -79,7 +86,8 @@ def check(case):
     use_vpc = case.get("use_vpc", True)
     steps = case["steps"]                       # list of node-index lists; steps[0] is the list at construction
     nkeys = case.get("nkeys", 60)
-    desc = "use_vpc=%r pooling=%r steps=%r schedule=%r" % (use_vpc, case.get("pooling", False), steps, (case.get("schedule") or [])[:6])
+    desc = "use_vpc=%r pooling=%r steps=%r schedule=%r%s" % (use_vpc, case.get("pooling", False), steps, (case.get("schedule") or [])[:6],
+                                                             " app_add=%r" % case["app_add"] if case.get("app_add") else "")
     labels = ["vpc" if use_vpc else "fqdn"]
     if case.get("endpoint_error"):
         w.cfg.cluster_error = case["endpoint_error"]
@@ -134,6 +142,13 @@ def check(case):
             if si > 0:
                 # optionally some nodes fail between two reconfigurations: traffic marks them failing / dead, then they
                 # heal and the application re-runs discovery (what the docstring recommends after errors)
+                for ai in (case.get("app_add") or {}).get(str(si), []):
+                    labels.append("application-added-a-server")
+                    r = bracket(hc.add_server, APP_SERVERS[ai % len(APP_SERVERS)])
+                    if r[0] == "exc":
+                        raise Violation(["add_server-raises", type(r[1]).__name__], "add_server(%r) raised %r before step %d: %s" % (APP_SERVERS[ai % len(APP_SERVERS)], r[1], si, desc))
+                    for kk in range(8):
+                        bracket(hc.get, "app-%d-%d" % (si, kk))              # single-key traffic in between; not judged
                 down = [j for j in (case.get("fail_before") or {}).get(str(si), []) if j in steps[si - 1]]
                 if down:
                     labels.append("node-failure-before-reconfigure")
@@ -170,8 +185,10 @@ def check(case):
                 if a != ("ok", True) or b != ("ok", b"v%d" % i):
                     raise Violation(["traffic-fails", type(a[1]).__name__ if a[0] == "exc" else type(b[1]).__name__ if b[0] == "exc" else "value"],
                                     "after step %d set/get of %r gave %r / %r: %s" % (si, k, a, b, desc))
-            contacted = {(e[4][0], int(e[4][1])) for e in w.net.log[n0:] if e[3] == "connect"}
-            used = contacted | {(s.addr[0], int(s.addr[1])) for s in w.net.sockets if not s.closed and s.addr and s.addr[0] != CFG_HOST}
+            def _a(x):
+                return x if isinstance(x, str) else (x[0], int(x[1]))
+            contacted = {_a(e[4]) for e in w.net.log[n0:] if e[3] == "connect"}
+            used = contacted | {_a(s.addr) for s in w.net.sockets if not s.closed and s.addr and s.addr[0] != CFG_HOST}
             if not used <= want:
                 raise Violation(["contacted-unadvertised"], "after step %d the client talks to %r, advertised are %r: %s" % (si, sorted(used - want), sorted(want), desc))
             if nkeys >= 30 * len(want) and used != want:      # chance of an unused node by luck < 1e-12
@@ -180,6 +197,8 @@ def check(case):
                 if len(n.log) != m:
                     raise Violation(["command-to-retired-node"], "node %s is not advertised after step %d but received %r: %s" % (n.name, si, n.log[m:][:2], desc))
             for s in w.net.sockets:
+                if not s.closed and s.addr and isinstance(s.addr, str):
+                    raise Violation(["stale-connection-open"], "socket to %r still open after step %d although the node is not advertised: %s" % (s.addr, si, desc))
                 if not s.closed and s.addr and s.addr[0] != CFG_HOST and (s.addr[0], int(s.addr[1])) not in want:
                     raise Violation(["stale-connection-open"], "socket to %r still open after step %d although the node is no longer advertised: %s" % (s.addr, si, desc))
             for s in w.net.sockets:
@@ -223,6 +242,11 @@ def fixed_history_cases(tier, seed):
     for vb in (7, 8, 9, 97, 98, 99, 998, 4294967294):
         for h in ([[0, 1, 2], [0, 1, 2, 3], [1, 4], [4]], [[0], [1], [2], [0, 1, 2]]):
             yield {"steps": h, "use_vpc": bool(vb % 2), "pooling": False, "nkeys": 60, "version_base": vb}
+    # the application adds a server of its own, in every spelling, before a reconfiguration (and again before the next)
+    for ai in range(len(APP_SERVERS)):
+        for h in ([[0, 1, 2], [0, 1, 2], [1, 2, 3]], [[0], [1], [0, 1]]):
+            for pooling in (False, True):
+                yield {"steps": h, "use_vpc": bool(ai % 2), "pooling": pooling, "nkeys": 60, "app_add": {"1": [ai], "2": [ai + 1]} if pooling else {"1": [ai]}}
     # a node fails (and is marked failing / dead by traffic), heals, and discovery runs again
     for h, fb in [([[0, 1, 2], [0, 1, 2]], {"1": [1]}), ([[0, 1, 2], [0, 1, 2, 3]], {"1": [0, 2]}), ([[0, 1], [1], [0, 1]], {"1": [0], "2": [1]}),
                   ([[0, 1, 2], [0, 1, 2], [0, 1, 2]], {"1": [0, 1, 2], "2": [2]}), ([[4, 5], [4, 5]], {"1": [5]})]:
@@ -363,6 +387,7 @@ def history_strategy(tier):
     fb = st.dictionaries(st.sampled_from(["1", "2", "3"]), st.lists(st.integers(0, 7), min_size=1, max_size=3, unique=True), max_size=2)
     return st.fixed_dictionaries({"steps": st.lists(nodes, min_size=1, max_size=6), "use_vpc": st.sampled_from([True, False, 1, 0]), "pooling": st.booleans(),
                                   "nkeys": st.sampled_from([20, 60, 200]), "schedule": sched, "fail_before": fb,
+                                  "app_add": st.one_of(st.none(), st.dictionaries(st.sampled_from(["1", "2", "3"]), st.lists(st.integers(0, 7), min_size=1, max_size=2), max_size=2)),
                                   "retry_attempts": st.sampled_from([0, 1, 2]), "version_base": st.sampled_from([1, 1, 8, 9, 98, 99, 65535])})
 
 
